@@ -252,7 +252,7 @@ Section Gram.
     eapply RK_bind_shift.
     - apply RK_opt. unfold annotation_body.
       eapply RK_bind with (Q2 := @TrueQ unit); [apply RK_take_until|]. intros x lo' mid' H3 H4 Hx.
-      destruct (snd x); [apply RK_ret_shift; intros; exact I | apply RK_fail].
+      destruct (snd x) as [tk|]; [destruct (tt_eqb (tty tk) TCSqrBracket); [apply RK_ret_shift; intros; exact I | apply RK_fail] | apply RK_fail].
     - intros r lo' mid' H3 H4 Hr.
       destruct r; [apply RK_ret_shift; intros hi H5 H6; apply empty_default_ok | apply RK_fail].
   Qed.
